@@ -12,6 +12,7 @@ import (
 	"regexp"
 	"sort"
 	"strings"
+	"sync"
 
 	"golang.org/x/tools/go/packages"
 	"golang.org/x/tools/go/ssa"
@@ -36,6 +37,8 @@ type Program struct {
 	allFns  []*ssa.Function
 	litOf   map[*ssa.Function]ast.Node
 	modSSA  []*ssa.Package
+	implCache map[string]types.Type
+	implMu    sync.Mutex
 }
 
 func readContractLines(path string) (lines []string, nos []int, goText []string, err error) {
